@@ -55,6 +55,16 @@ Step(e) ==
              ref == PS!RefResolve(cur, e.title, e.ns) IN
          /\ memo' = g.memo /\ UNCHANGED <<cur, com>>
          /\ Note(e, e.res.found = ref.found /\ (ref.found => e.res.body = ref.body), ref)
+    [] e.op = "count" ->
+         LET n == PS!CountPages(cur, e.hasNs, {e.nsl[i] : i \in 1..Len(e.nsl)}, e.redirects, e.hasModel, e.model) IN
+         /\ UNCHANGED <<cur, com, memo>>
+         /\ Note(e, e.res.n = n, [n |-> n])
+    [] e.op = "all" ->
+         LET rows == PS!AllPages(cur, e.hasNs, {e.nsl[i] : i \in 1..Len(e.nsl)}, e.redirects, e.hasModel, e.model)
+             got == {[found |-> TRUE, title |-> e.res.rows[i].title, ns |-> e.res.rows[i].ns, redirect |-> e.res.rows[i].redirect,
+                      body |-> e.res.rows[i].body, model |-> e.res.rows[i].model] : i \in 1..Len(e.res.rows)} IN
+         /\ UNCHANGED <<cur, com, memo>>
+         /\ Note(e, got = rows /\ Len(e.res.rows) = Cardinality(rows), [n |-> Cardinality(rows)])
     [] e.op = "reopen_get" ->
          LET ref == PS!RefGet(com, e.title, e.ns, e.nr) IN
          /\ UNCHANGED <<cur, com, memo>>
